@@ -58,6 +58,7 @@ func main() {
 	sites := fs.Int("sites", 0, "number of instrumented sites")
 	reps := fs.Int("reps", 1, "repetitions (par)")
 	summary := fs.String("summary", "", "write corpus classification summary here (gen)")
+	reverse := fs.Bool("reverse", false, "evaluate cases and operations in reverse order (ref)")
 	budget := fs.Uint64("opbudget", 4_000_000, "per-operation step budget")
 	fs.Parse(os.Args[2:])
 
@@ -77,7 +78,7 @@ func main() {
 		b := harness.Batch{Seed: *seed, Tier: *tier, Batch: *batch}
 		for i := *from; i < *to; i++ {
 			sp := g.Spec(*seed, i)
-			exp, err := harness.Reference(&sp)
+			exp, err := harness.Reference(&sp, false)
 			if err != nil {
 				die(2, "%v", err)
 			}
@@ -87,8 +88,12 @@ func main() {
 	case "ref":
 		var b harness.Batch
 		readJSON(*in, &b)
-		for i := range b.Cases {
-			exp, err := harness.Reference(&b.Cases[i].Spec)
+		for k := range b.Cases {
+			i := k
+			if *reverse {
+				i = len(b.Cases) - 1 - k
+			}
+			exp, err := harness.Reference(&b.Cases[i].Spec, *reverse)
 			if err != nil {
 				die(2, "%v", err)
 			}
